@@ -9,7 +9,7 @@ namespace IcyVerif.FontBox
 open IcyVerif.Font IcyVerif.BinFormats IcyVerif.XbCompress IcyVerif.Gen
 
 theorem boxOk_parts (f : Fmt) (p : Pic) (h : boxOk f p = true) :
-    wellFormed p = true ∧ p.ice = .ice ∧ allCells p (attrCell true) = true ∧ pal16 p.pal = true ∧
+    metaOk p.sauce = true ∧ wellFormed p = true ∧ p.ice = .ice ∧ allCells p (attrCell true) = true ∧ pal16 p.pal = true ∧
     analyzeFontUsage p.rows.flatten = [0] ∧
     (∃ f0, lookupFont p.fonts 0 = some f0 ∧ f0.height = 16 ∧ f0.data.length = 4096) ∧
     (match f with
@@ -18,8 +18,8 @@ theorem boxOk_parts (f : Fmt) (p : Pic) (h : boxOk f p = true) :
      | _ => False) := by
   unfold boxOk at h
   simp only [Bool.and_eq_true, beq_iff_eq] at h
-  obtain ⟨⟨⟨⟨⟨⟨h1, h2⟩, h3⟩, h4⟩, h5⟩, h6⟩, h7⟩ := h
-  refine ⟨h1, h2, h3, h4, h5, ?_, ?_⟩
+  obtain ⟨⟨⟨⟨⟨⟨⟨h0, h1⟩, h2⟩, h3⟩, h4⟩, h5⟩, h6⟩, h7⟩ := h
+  refine ⟨h0, h1, h2, h3, h4, h5, ?_, ?_⟩
   · cases hl : lookupFont p.fonts 0 with
     | none => rw [hl] at h6; cases h6
     | some f0 =>
@@ -32,7 +32,7 @@ theorem boxOk_parts (f : Fmt) (p : Pic) (h : boxOk f p = true) :
 theorem adf_font_roundtrip (o : Opts) (date : List Nat) (p : Pic) (hok : boxOk .adf p = true) (hdate : dateOk date = true) :
     ∃ bytes f0, lookupFont p.fonts 0 = some f0 ∧ save .adf o date p = .ok bytes ∧
       ((o.sauce = true ∨ looksLikeSauce bytes = false) → ∃ g, fromBytes .adf bytes = .ok g ∧ g.fonts = [(0, mkFont 16 f0.data)]) := by
-  obtain ⟨hwf, hice, hcells, hpal, hpages, ⟨f0, hf, hf16, hfd⟩, hdim⟩ := boxOk_parts .adf p hok
+  obtain ⟨hmeta, hwf, hice, hcells, hpal, hpages, ⟨f0, hf, hf16, hfd⟩, hdim⟩ := boxOk_parts .adf p hok
   obtain ⟨hw, hh⟩ : p.w = 80 ∧ p.h ≤ 65535 := hdim
   obtain ⟨hne, hrows, hwid⟩ := rows_nonempty p hwf
   have hpl : p.pal.length = 16 := by
@@ -56,18 +56,16 @@ theorem adf_font_roundtrip (o : Opts) (date : List Nat) (p : Pic) (hok : boxOk .
     rfl
   cases hsa : o.sauce with
   | true =>
-    obtain ⟨bytes, hw1, hfb⟩ := fromBytes_sauced .adf .ansi p date body f0 BinFmt.sauceDtCharacter BinFmt.sauceFtAnsi p.w p.h true true hf
-      (by unfold sauceFields; simp [hice]) hdate
-    refine ⟨bytes, f0, hf, ?_, fun _ => ⟨adfLoaded p f0, ?_, rfl⟩⟩
+    obtain ⟨bytes, hw1, _, hfb⟩ := fromBytes_sauced .adf .ansi p date body f0 hf hmeta (fun h => by cases h) hdate
+    obtain ⟨c1, _, _⟩ := carry_ansi p f0.name (bytes.length - body.length) (by omega) (by omega)
+    generalize Sauce.carry SauceKind.ansi.idx (bufInfo p f0.name) (bytes.length - body.length) = sc at hfb c1
+    refine ⟨bytes, f0, hf, ?_, fun _ => ⟨adfLoaded p f0 (some (metaOf sc)), ?_, rfl⟩⟩
     · show adfSave o.sauce date p = _
       rw [hsave0, hsa]; exact hw1
     · rw [hfb]
-      have hd := dims_ansi p.w p.h (by omega) (by omega)
-      simp only [if_true] at hd ⊢
-      rw [hd]
       show adfLoad body _ = _
-      rw [hbody, hw]
-      exact adf_load p f0 _ (Or.inr rfl) hwf hw hcells hpal hpages hfd
+      rw [hbody]
+      exact adf_load p f0 _ (fun s' hs' => by cases hs'; rw [c1, hw]) hwf hw hcells hpal hpages hfd
   | false =>
     refine ⟨body, f0, hf, ?_, fun hor => ?_⟩
     · show adfSave o.sauce date p = _
@@ -76,17 +74,17 @@ theorem adf_font_roundtrip (o : Opts) (date : List Nat) (p : Pic) (hok : boxOk .
         rcases hor with h | h
         · exact absurd h (by simp)
         · exact h
-      refine ⟨adfLoaded p f0, ?_, rfl⟩
+      refine ⟨adfLoaded p f0 none, ?_, rfl⟩
       rw [fromBytes_plain .adf body hl]
       show adfLoad body none = _
       rw [hbody]
-      exact adf_load p f0 none (Or.inl rfl) hwf hw hcells hpal hpages hfd
+      exact adf_load p f0 none (fun s' hs' => by cases hs') hwf hw hcells hpal hpages hfd
 
 /-- IDF (raw and run-length coded): the same -/
 theorem idf_font_roundtrip (o : Opts) (date : List Nat) (p : Pic) (hok : boxOk .idf p = true) (hdate : dateOk date = true) :
     ∃ bytes f0, lookupFont p.fonts 0 = some f0 ∧ save .idf o date p = .ok bytes ∧
       ((o.sauce = true ∨ looksLikeSauce bytes = false) → ∃ g, fromBytes .idf bytes = .ok g ∧ g.fonts = [(0, mkFont 16 f0.data)]) := by
-  obtain ⟨hwf, hice, hcells, hpal, hpages, ⟨f0, hf, hf16, hfd⟩, hdim⟩ := boxOk_parts .idf p hok
+  obtain ⟨hmeta, hwf, hice, hcells, hpal, hpages, ⟨f0, hf, hf16, hfd⟩, hdim⟩ := boxOk_parts .idf p hok
   obtain ⟨hw1, hw2, hh⟩ : 1 ≤ p.w ∧ p.w ≤ 80 ∧ p.h ≤ 200 := hdim
   obtain ⟨hne, hrows, hwid⟩ := rows_nonempty p hwf
   have hpl : p.pal.length = 16 := by
@@ -113,13 +111,12 @@ theorem idf_font_roundtrip (o : Opts) (date : List Nat) (p : Pic) (hok : boxOk .
   have hload := idf_load p f0 img o.compress hwf hw1 hw2 hh hcells hpal hpages hfd himg
   cases hsa : o.sauce with
   | true =>
-    obtain ⟨bytes, hw, hfb⟩ := fromBytes_sauced .idf .bin p date body f0 BinFmt.sauceDtBinaryText (p.w / 2) 0 0 true true hf
-      (by unfold sauceFields; have : ¬ (p.w / 2 > 255) := by omega
-          simp [this, hice]) hdate
-    refine ⟨bytes, f0, hf, ?_, fun _ => ⟨idfLoaded p f0, ?_, rfl⟩⟩
+    obtain ⟨bytes, hw, _, hfb⟩ := fromBytes_sauced .idf .bin p date body f0 hf hmeta (fun _ => by omega) hdate
+    generalize Sauce.carry SauceKind.bin.idx (bufInfo p f0.name) (bytes.length - body.length) = sc at hfb
+    refine ⟨bytes, f0, hf, ?_, fun _ => ⟨idfLoaded p f0 (some (metaOf sc)), ?_, rfl⟩⟩
     · show idfSave o.compress o.sauce date p = _
       rw [hsave0, hsa]; exact hw
-    · rw [hfb]; exact hload
+    · rw [hfb]; exact hload (some sc)
   | false =>
     refine ⟨body, f0, hf, ?_, fun hor => ?_⟩
     · show idfSave o.compress o.sauce date p = _
@@ -128,9 +125,9 @@ theorem idf_font_roundtrip (o : Opts) (date : List Nat) (p : Pic) (hok : boxOk .
         rcases hor with h | h
         · exact absurd h (by simp)
         · exact h
-      refine ⟨idfLoaded p f0, ?_, rfl⟩
+      refine ⟨idfLoaded p f0 none, ?_, rfl⟩
       rw [fromBytes_plain .idf body hl]
-      exact hload
+      exact hload none
 
 theorem fontBack_single (g : LBuf) (F : BinFormats.Font) (hg : g.fonts = [(0, F)]) (f : BitFont) (hu : unboxFont F = f) :
     FontBack g 0 f := ⟨F, by rw [hg]; exact lookupFont_single F, hu⟩
